@@ -55,8 +55,16 @@ bool rsValuesFacet::CheckBasicElements(const object::StructuredData& data, const
   switch (data.Structure()) {
   default:
   case ccl::rslang::StructureType::basic: {
-    return type == rslang::Typification::Integer() ||
-      TextFor(core.Core().FindAlias(type.E().baseID).value())->HasInterpretantFor(data.E().Value()); // NOLINT(bugprone-unchecked-optional-access)
+    if (type == rslang::Typification::Integer()) {
+      return true;
+    }
+    // Note: the base of a typification is not always a constituent (anonymous base of the empty set literal)
+    const auto baseUID = core.Core().FindAlias(type.E().baseID);
+    if (!baseUID.has_value()) {
+      return false;
+    }
+    const auto* baseText = TextFor(baseUID.value());
+    return baseText != nullptr && baseText->HasInterpretantFor(data.E().Value());
   }
   case ccl::rslang::StructureType::collection: {
     if (!data.B().IsEmpty()) {
